@@ -355,6 +355,8 @@ def task_int_data():
         "p1": ([0, 0, 1, 3, 3], [2, 5, -1], [2, 1, 3]),
         "p2-double": ([0, 0, 0, 2, 2, 5, 5, 5], [1, 0, 3, -2, 4], [1, 3, 2, 1, 2]),
         "p3": ([0, 0, 0, 0, 6, 6, 6, 6], [1, 5, -3, 2], [2, 1, 1, 3]),
+        # Python ints are unbounded: products w_i * P_i beyond 2^63 must stay exact (an int64 array would wrap around)
+        "p2-large-ints": ([0, 0, 0, 2, 4, 4, 4], [7 * 10 ** 9, -5 * 10 ** 9 + 1, 3 * 10 ** 9, 9 * 10 ** 9 + 7], [3 * 10 ** 9, 2 * 10 ** 9 + 1, 5 * 10 ** 9, 4 * 10 ** 9]),
     }
     for name, (U, P, W) in cases.items():
         U = [F(x) for x in U]
